@@ -153,3 +153,87 @@ func VHPairs() {
 		vCover("pairs n >= 3")
 	}
 }
+
+// VHPartitionLong: long inputs with concrete lengths and sizes (one path each), symbolic
+// elements: past the first reallocation boundaries of any internal buffer.
+func VHPartitionLong() {
+	lens := []int{0, 1, 2, 7, 8, 9, 15, 16, 17, 31, 32, 33, 63, 64, 65, 100}
+	n := lens[vChoose("len", len(lens))]
+	sizes := []int{1, 2, 3, 7, 8, 9, n - 1, n, n + 1}
+	size := sizes[vChoose("size", len(sizes))]
+	vAssume(size >= 1)
+	full := make([]int, n+2)
+	for i := range full {
+		full[i] = vInt("e")
+	}
+	in := full[:n]
+	snap := append([]int(nil), in...)
+	// Chunk / ChunkFunc
+	got := Chunk(in, size)
+	var log [][]int
+	ChunkFunc(in, size, func(c []int) { log = append(log, c) })
+	want := (n + size - 1) / size
+	vAssert(len(got) == want, "Chunk (long): ceil(n/size) pieces")
+	vAssert(len(log) == want, "ChunkFunc (long): ceil(n/size) callbacks")
+	k := 0
+	for pi, p := range got {
+		exp := size
+		if pi == want-1 {
+			exp = n - size*(want-1)
+		}
+		vAssert(len(p) == exp, "Chunk (long): piece lengths")
+		if pi < len(log) {
+			vAssert(len(log[pi]) == exp, "ChunkFunc (long): piece lengths")
+		}
+		for j, x := range p {
+			vAssert(k < n && x == snap[k], "Chunk (long): concatenation equals input")
+			if pi < len(log) && j < len(log[pi]) {
+				vAssert(log[pi][j] == snap[k], "ChunkFunc (long): concatenation equals input")
+			}
+			k++
+		}
+	}
+	vAssert(k == n, "Chunk (long): nothing lost")
+	// Windowed / WindowedFunc
+	w := Windowed(in, size)
+	var wlog [][]int
+	WindowedFunc(in, size, func(x []int) { wlog = append(wlog, x) })
+	ww := n - size + 1
+	if ww < 0 {
+		ww = 0
+	}
+	vAssert(len(w) == ww, "Windowed (long): n-size+1 windows")
+	vAssert(len(wlog) == ww, "WindowedFunc (long): n-size+1 callbacks")
+	for j := range w {
+		vAssert(len(w[j]) == size, "Windowed (long): window length")
+		vAssert(w[j][0] == snap[j] && w[j][size-1] == snap[j+size-1], "Windowed (long): window j is input[j:j+size]")
+		if j < len(wlog) {
+			vAssert(len(wlog[j]) == size && wlog[j][0] == snap[j] && wlog[j][size-1] == snap[j+size-1], "WindowedFunc (long): window j is input[j:j+size]")
+		}
+	}
+	// Pairs / PairsFunc
+	pr := Pairs(in)
+	np := 0
+	PairsFunc(in, func(a, b int) {
+		if np < n-1 {
+			vAssert(a == snap[np] && b == snap[np+1], "PairsFunc (long): adjacent pairs in order")
+		}
+		np++
+	})
+	wp := n - 1
+	if wp < 0 {
+		wp = 0
+	}
+	vAssert(len(pr) == wp && np == wp, "Pairs (long): n-1 pairs")
+	for j := range pr {
+		vAssert(pr[j][0] == snap[j] && pr[j][1] == snap[j+1], "Pairs (long): adjacent pairs in order")
+	}
+	for i := range full {
+		if i < n {
+			vAssert(full[i] == snap[i], "partition helpers (long) do not modify the input")
+		}
+	}
+	if n >= 64 {
+		vCover("partition long n >= 64")
+	}
+}
